@@ -22,6 +22,8 @@ RULES = {
                     "its remaining in-degree (loop invariant: indegree[v] = number of incoming edges from unvisited nodes)",
     "LAYER-TRUSTED": "TRUSTED: kahn assigns layer numbers < number of nodes (every iteration with a non-empty "
                      "frontier visits at least one previously unvisited node)",
+    "COUNT-TRUSTED": "TRUSTED: in delete_edges / delete_nodes_witness, remove_count <= count (each increment flips a "
+                     "distinct false slot among `count` slots)",
     "PERM-SUM": "π a permutation of 0..len(x) (identity, argsort, matrix transposition): sum(x∘π) = sum(x)",
     "ID-GATHER": "gather(x, arange(0,len x)) ≡ x",
 }
@@ -48,6 +50,18 @@ def extra_ubs(st, t):
                 if st.eq(n, as_poly(a) * as_poly(b)):
                     out.append(("TRANSPOSE", n))
     return out
+
+
+def trusted_sub(I, st, fr, a, b):
+    """COUNT-TRUSTED: `count - remove_count` in the deletion routines."""
+    fn = fr.fn["path"] if fr and fr.fn else ""
+    if fn.endswith("::delete_edges") or fn.endswith("::delete_nodes_witness"):
+        at = list(b.atoms())
+        if len(at) == 1 and isinstance(at[0], tuple) and at[0][0] == "loopvar" and at[0][1][-1] == "remove_count" \
+                and b == Poly.atom(at[0]):
+            I.lemma_uses["COUNT-TRUSTED"] = I.lemma_uses.get("COUNT-TRUSTED", 0) + 1
+            return "COUNT-TRUSTED"
+    return None
 
 
 def trusted_bound(st, t, B):
